@@ -58,6 +58,9 @@ func (o *Obl) BuildQuery() string { return o.buildQuery(false) }
 func (o *Obl) BuildSlicedQuery() string { return o.buildQuery(true) }
 
 func (o *Obl) buildQuery(slice bool) string {
+	if o.RawQuery != "" {
+		return o.RawQuery
+	}
 	e := o.Exec
 	var body strings.Builder
 	used := map[string]bool{}
